@@ -274,7 +274,9 @@ fn build_side(ctx: &mut Ctx) {
 fn run(ctx: &mut Ctx) {
     let arena = Arena::new(2);
     parse_side(ctx, &arena);
-    build_side(ctx);
+    if !ctx.uniform() {
+        build_side(ctx);
+    }
 }
 
 fn main() {
